@@ -677,7 +677,9 @@ func (d *Dials[T]) monitor(
 					})
 				}
 			case *watchErrorReport:
-				if !skipVerify && !d.params.CallGlobalCallbacksAfterVerificationEnabled {
+				// only suppressed while verification is still delayed and
+				// the option to hold back the global callbacks is set.
+				if !(skipVerify && d.params.CallGlobalCallbacksAfterVerificationEnabled) {
 					d.submitEvent(ctx, &watchErrorEvent[T]{
 						err: fmt.Errorf("error reported by source of type %T: %w",
 							v.source, v.err),
